@@ -15,12 +15,12 @@ mut('M01-alignment-shortcut-or', 'chess/mod.rs',
     'if delta_col != 0 && delta_row != 0 && delta_col.abs() != delta_row.abs() {',
     'if (delta_col != 0 || delta_row != 0) && delta_col.abs() != delta_row.abs() {',
     ['C01'], 'verification skipped for pieces on the king\'s file/rank: pinned rooks/queens may leave the line')
-mut('M02-pawn-attack-deltas-swapped', 'chess/mod.rs',
+mut('M02-pawn-attack-delta-wrong-direction', 'chess/mod.rs',
     """            Player::White => {
                 if let Some(new_pos) = position.add((1, 1)) {""",
-    """            Player::Black => {
-                if let Some(new_pos) = position.add((1, 1)) {""",
-    ['C01'], 'first half only: see M02b')
+    """            Player::White => {
+                if let Some(new_pos) = position.add((-1, 1)) {""",
+    ['C01'], 'a white king/castling square looks for an attacking black pawn below-right instead of above-right')
 mut('M03-long-castling-checks-b-file', 'chess/piece.rs',
     """                && !game.is_targeted(pos2, game.current_player)
                 && !game.is_targeted(pos3, game.current_player)
@@ -137,9 +137,11 @@ mut('M13-fen-ep-rank-wrong-side', 'chess/mod.rs',
             result.push((b'a' + state.en_passant() as u8) as char);""",
     ['C11'], 'en-passant square exported on the wrong rank (re-import is lenient about the rank)')
 mut('M14-shared-flag-across-go', 'uci.rs',
-    'search_is_running = Arc::new(AtomicBool::new(false));',
-    'search_is_running.store(false, Relaxed);',
-    ['C14'], 'one flag reused for every go: a stale timer stops the next search')
+    """                        // it won't affect this new search
+                        search_is_running = Arc::new(AtomicBool::new(false));""",
+    """                        // it won't affect this new search
+                        search_is_running.store(false, Relaxed);""",
+    ['C14', 'C19'], 'one flag reused for every go: a stale timer stops the next search')
 mut('M15-killer-table-32', 'search.rs',
     'let mut killer_moves = [None; MAX_SEARCH_DEPTH as usize];',
     'let mut killer_moves = [None; 32];',
